@@ -388,6 +388,9 @@ def build_value(types, t, v):
     return v
 
 
+ARRAYS = {"as": "list"}      # "iter": array arguments are handed over as one-shot iterators (consumable once)
+
+
 def build(types, cls, instrs, tree):
     kw = {}
     collect_kwargs(types, cls, instrs, tree, kw)
@@ -405,7 +408,8 @@ def collect_kwargs(types, cls, instrs, tree, kw):
             if v is None:
                 kw[ins[1]] = None
             else:
-                kw[ins[1]] = [build_value(types, ins[2], x) for x in v]
+                items = [build_value(types, ins[2], x) for x in v]
+                kw[ins[1]] = iter(items) if ARRAYS["as"] == "iter" else items
         elif tag == "chunked":
             collect_kwargs(types, cls, ins[1], tree, kw)
         elif tag == "switch":
